@@ -127,7 +127,7 @@ func (b *Block) setMiningBlob(m MiningBlob) error {
 				}
 			}
 			b.OtherChains = append(b.OtherChains, v)
-			return nil
+			lastNetworkId = v.NetworkID
 		} else {
 			if containsNetworkID {
 				return fmt.Errorf("mining blob has duplicate network id")
